@@ -1,0 +1,29 @@
+// SPDX-License-Identifier: GPL-3.0-or-later
+
+//go:build verif
+// +build verif
+
+// Package verifhook provides named hook points for external verification harnesses.
+//
+// With the "verif" build tag, At calls the handler installed by the harness, if any. This
+// is used to stop the process at a crash point or to hold a goroutine at a schedule point.
+package verifhook
+
+import "sync/atomic"
+
+var handler atomic.Value // of func(string)
+
+// Set installs the handler for all hook points; nil removes it.
+func Set(f func(string)) {
+	if f == nil {
+		f = func(string) {}
+	}
+	handler.Store(f)
+}
+
+// At marks a hook point and calls the installed handler.
+func At(name string) {
+	if f, ok := handler.Load().(func(string)); ok && f != nil {
+		f(name)
+	}
+}
